@@ -39,6 +39,56 @@ Definition eres_eqb (a b : eres) : bool :=
   | _, _ => false
   end.
 
+(** * Compact descriptions (boundary families: long lists, long byte strings)
+    Values and inputs with thousands of equal parts are written with repetition constructors that
+    are expanded here, so that cases.v stays small. A length and a fingerprint of the actual bytes
+    the implementation produced / was given tie the description to them. *)
+Inductive gexp :=
+| EVal (g : gvalue)
+| ERep (n : N) (e : gexp)           (* n consecutive copies (as items of the enclosing list) *)
+| EList (items : list gexp)
+| EBytes (n x : N)                  (* GBytes of n bytes x *)
+| EString (n x : N).
+
+Fixpoint gitems (e : gexp) : list gvalue :=
+  match e with
+  | EVal g => [g]
+  | ERep n e' => concat (repeat (gitems e') (N.to_nat n))
+  | EList items => [GList (flat_map gitems items)]
+  | EBytes n x => [GBytes (repeat x (N.to_nat n))]
+  | EString n x => [GString (repeat x (N.to_nat n))]
+  end.
+Definition gexpand (e : gexp) : gvalue := match gitems e with [g] => g | l => GList l end.
+
+Inductive bexp := BRaw (b : bytes) | BRep (n : N) (e : bexp) | BCat (l : list bexp).
+Fixpoint bexpand (e : bexp) : bytes :=
+  match e with
+  | BRaw b => b
+  | BRep n e' => concat (repeat (bexpand e') (N.to_nat n))
+  | BCat l => flat_map bexpand l
+  end.
+
+(** Fingerprint of a byte string (the harness computes the same over the real bytes). *)
+Definition fp (b : bytes) : N := fold_left (fun h x => (h * 1000003 + x + 1) mod 4294967291) b 7.
+Definition same_bytes (b : bytes) (len f : N) : bool := (N.of_nat (length b) =? len) && (fp b =? f).
+
+Inductive eresx := EXOk (len f : N) | EXErrRange | EXErrUnsupported.
+Definition eresx_ok (m : eres) (r : eresx) : bool :=
+  match m, r with
+  | EOk b, EXOk len f => same_bytes b len f
+  | EErrRange, EXErrRange => true
+  | EErrUnsupported, EXErrUnsupported => true
+  | _, _ => false
+  end.
+
+Inductive dobsx := XOk (e : gexp) (pos : N) | XErrFormat | XErrNotSupported.
+Definition dobs_of_x (r : dobsx) : dobs :=
+  match r with
+  | XOk e pos => OOk (norm (gexpand e)) pos
+  | XErrFormat => OErrFormat
+  | XErrNotSupported => OErrNotSupported
+  end.
+
 Inductive case :=
 (** EncodeValue(g) returned [res]; [indomain] is the generator's claim that g satisfies the
     hypotheses of the round-trip theorem. *)
@@ -50,20 +100,26 @@ Inductive case :=
 (** parseNotify(b) *)
 | CNotify (b : bytes) (res : dobs)
 (** DeserializeNotify(b) returned the raw input ([raw] = true) or a rendered value. *)
-| CNotifyOut (b : bytes) (raw : bool).
+| CNotifyOut (b : bytes) (raw : bool)
+(** The same observations on compactly described values / inputs. *)
+| CEncX (e : gexp) (indomain : bool) (res : eresx)
+| CDecX (b : bexp) (skip len f : N) (res : dobsx)
+| CCallX (b : bexp) (len f : N) (res : dobsx)
+| CNotifyX (b : bexp) (len f : N) (res : dobsx).
+
+Definition enc_ok (g : gvalue) (indomain : bool) : bool :=
+  eqb indomain (wf_g g && top_supported g)
+  && (if indomain then
+        (* the model decodes its own output back to the normalised value, consuming all of it *)
+        match g_encode_value g with
+        | EOk b => obs_ok (obs_of (decode_value (src_new b))) (OOk (norm g) (N.of_nat (length b)))
+        | _ => false
+        end
+      else true).
 
 Definition case_ok (c : case) : bool :=
   match c with
-  | CEnc g indomain res =>
-      eres_eqb (g_encode_value g) res
-      && eqb indomain (wf_g g && top_supported g)
-      && (if indomain then
-            (* the model decodes its own output back to the normalised value, consuming all of it *)
-            match g_encode_value g with
-            | EOk b => obs_ok (obs_of (decode_value (src_new b))) (OOk (norm g) (N.of_nat (length b)))
-            | _ => false
-            end
-          else true)
+  | CEnc g indomain res => eres_eqb (g_encode_value g) res && enc_ok g indomain
   | CDec b sk res =>
       let '(_, s) := skip (src_new b) sk in obs_ok (obs_of (decode_value s)) res
   | CCall b res => obs_ok (wobs_of (deserialize_call_param b)) res
@@ -74,6 +130,16 @@ Definition case_ok (c : case) : bool :=
       | NParsed _ => negb raw
       | NPanic => false
       end
+  | CEncX e indomain res =>
+      let g := gexpand e in eresx_ok (g_encode_value g) res && enc_ok g indomain
+  | CDecX be sk len f res =>
+      let b := bexpand be in
+      same_bytes b len f &&
+      let '(_, s) := skip (src_new b) sk in obs_ok (obs_of (decode_value s)) (dobs_of_x res)
+  | CCallX be len f res =>
+      let b := bexpand be in same_bytes b len f && obs_ok (wobs_of (deserialize_call_param b)) (dobs_of_x res)
+  | CNotifyX be len f res =>
+      let b := bexpand be in same_bytes b len f && obs_ok (wobs_of (parse_notify b)) (dobs_of_x res)
   end.
 
 Definition mismatches := mism case_ok.
